@@ -35,7 +35,7 @@ func pin() func() {
 
 type CleanCase struct {
 	Type  string `json:"type"`
-	Field string `json:"field"` // "*" = every field filled
+	Field string `json:"field"`         // "*" = every field filled
 	Len   int    `json:"len,omitempty"` // elements per slice (default 1)
 }
 
@@ -248,6 +248,7 @@ func transformRules() []transform.Rule {
 }
 
 func runHold(h HoldHistory) error {
+	defer pin()() // sync.Pool hands a released node back to the same processor: keep the history on one
 	rules := transformRules()
 	var H []*held
 	hold := func(what string, v interface{}, tree *ast.AST) {
@@ -260,6 +261,45 @@ func runHold(h HoldHistory) error {
 			}
 			if got := astdump.Dump(x.val); got != x.snap {
 				return fmt.Errorf("step %d (%s): a held %s was modified by later library activity: %s", step, op.Kind, x.what, astdump.Diff(got, x.snap))
+			}
+		}
+		return nil
+	}
+	// poolDistinct: whatever was released before, values drawn from the pools now belong to this
+	// caller alone: pairwise distinct and not part of any tree still held
+	poolDistinct := func(i int) error {
+		// whatever was released before, values drawn from the pools now belong to
+		// this caller alone: pairwise distinct and not part of any tree still held
+		live := map[uintptr]string{}
+		for _, x := range H {
+			if x != nil && x.tree != nil {
+				ptrs(reflect.ValueOf(x.val), live, "a held tree")
+			}
+		}
+		var drawn []interface{}
+		for _, p := range registry.Pools {
+			if p.Get == nil {
+				continue
+			}
+			for k := 0; k < 3; k++ {
+				o := p.Get()
+				a := reflect.ValueOf(o).Pointer()
+				if who, dup := live[a]; dup {
+					return fmt.Errorf("step %d: Get%s returned a node that is still part of %s (released twice or while in use)", i, p.Type, who)
+				}
+				live[a] = "another value drawn from the " + p.Type + " pool"
+				drawn = append(drawn, o)
+			}
+		}
+		for j, p := range drawnPools() {
+			_ = j
+			_ = p
+		}
+		for _, o := range drawn { // give them back, clean
+			for _, p := range registry.Pools {
+				if reflect.TypeOf(o) == reflect.TypeOf(p.New()) {
+					p.Put(o)
+				}
 			}
 		}
 		return nil
@@ -327,39 +367,8 @@ func runHold(h HoldHistory) error {
 			}
 			wg.Wait()
 		case "pool_gets":
-			// whatever was released before, values drawn from the pools now belong to
-			// this caller alone: pairwise distinct and not part of any tree still held
-			live := map[uintptr]string{}
-			for _, x := range H {
-				if x != nil && x.tree != nil {
-					ptrs(reflect.ValueOf(x.val), live, "a held tree")
-				}
-			}
-			var drawn []interface{}
-			for _, p := range registry.Pools {
-				if p.Get == nil {
-					continue
-				}
-				for k := 0; k < 3; k++ {
-					o := p.Get()
-					a := reflect.ValueOf(o).Pointer()
-					if who, dup := live[a]; dup {
-						return fmt.Errorf("step %d: Get%s returned a node that is still part of %s (released twice or while in use)", i, p.Type, who)
-					}
-					live[a] = "another value drawn from the " + p.Type + " pool"
-					drawn = append(drawn, o)
-				}
-			}
-			for j, p := range drawnPools() {
-				_ = j
-				_ = p
-			}
-			for _, o := range drawn { // give them back, clean
-				for _, p := range registry.Pools {
-					if reflect.TypeOf(o) == reflect.TypeOf(p.New()) {
-						p.Put(o)
-					}
-				}
+			if err := poolDistinct(i); err != nil {
+				return err
 			}
 		case "recovery_hold":
 			stmts, _ := gosqlx.ParseWithRecovery(op.SQL)
@@ -381,7 +390,18 @@ func runHold(h HoldHistory) error {
 			return err
 		}
 	}
-	return nil
+	// end of history: release every tree still held and look at the pools once more, so that a
+	// node released twice is reported by the history that did it (the pools are process-wide)
+	for j, x := range H {
+		if x != nil && x.tree != nil {
+			ast.ReleaseAST(x.tree)
+			H[j] = nil
+		}
+	}
+	for j := range H {
+		H[j] = nil
+	}
+	return poolDistinct(len(h.Ops))
 }
 
 func drawnPools() []string { return nil }
@@ -461,7 +481,7 @@ func TestHeldValuesStable(t *testing.T) {
 					"SELECT a , b FROM t1 WHERE c > 0 ORDER BY a LIMIT 3"}).Draw(rt, "tsql")
 				h.Ops = append(h.Ops, HoldOp{Kind: "parse_hold", SQL: sql})
 			}
-			rule := rapid.IntRange(0, 3).Draw(rt, "shared_rule") // the four rules built from SQL text
+			rule := rapid.SampledFrom([]int{0, 1, 2, 3, 12, 6, 11}).Draw(rt, "shared_rule") // rules that add nodes to the tree
 			for i := 0; i < nTrees; i++ {
 				h.Ops = append(h.Ops, HoldOp{Kind: "transform", Idx: i, N: rule})
 			}
